@@ -142,6 +142,50 @@ SENTINEL = 4999  # "a label / error the model cannot produce": forces a mismatch
 WITNESS_DELTA = ("delta_degC", "degC", "K")
 
 EPS = F(1, 10**12)
+SHARD = 12  # cases per generated Coq file (parsing dominates; many small files run in parallel)
+
+# Mask / array layouts of `prepare` and `link` ops (optional last element of the op; 0 when absent).
+# The model is layout-blind: a mask does not change numbers.  A gridded op publishes 4 cell values
+# derived from x on UniformGrid((3,3)) (data shape (2,2)); each judged (unmasked) cell is compared
+# with the scalar model op on that cell's value (the op is expanded into one model op per cell).
+LAYOUTS = ["NoGrid scalar", "grid / Mask.NONE / plain array", "grid / Mask.FLEX / plain array",
+           "grid / Mask.FLEX / masked array", "grid / fixed mask / masked array", "grid / fixed mask / plain array"]
+MASK = [False, True, False, False]  # row-major cells of the (2,2) data
+
+
+def _lay(op):
+    if op[0] == "prepare" and len(op) > 4:
+        return op[4]
+    if op[0] == "link" and len(op) > 5:
+        return op[5]
+    return 0
+
+
+def _cells(x, lay):
+    """(all cell values as floats, indices of the judged cells)"""
+    x = float(x)
+    if lay == 0:
+        return [x], [0]
+    vals = [x, 0.5 * x, -x, x + 0.25]
+    return vals, (list(range(4)) if lay in (1, 2) else [i for i in range(4) if not MASK[i]])
+
+
+def expand(op):
+    """the scalar model ops of one op (one per judged cell)"""
+    lay = _lay(op)
+    if op[0] not in ("prepare", "link") or lay == 0:
+        return [op[:4] if op[0] == "prepare" else op[:5] if op[0] == "link" else op]
+    xi = 3 if op[0] == "prepare" else 4
+    vals, judged = _cells(op[xi], lay)
+    return [op[:xi] + [vals[i]] for i in judged]
+
+
+def answers(op, got):
+    """the observed answers aligned with expand(op)"""
+    n = len(expand(op))
+    if got[0] == "multi":
+        return got[1]
+    return [got] * n
 
 RULE = (
     "sessions of 40-400 operations (compatible_units / equivalent_units / pint.Unit identity / to_units with and "
@@ -149,7 +193,8 @@ RULE = (
     f"over a hand-written catalogue of {NCAT} unit names ({len(_KEYS)} distinct pint units; SI, prefixes, powers, rates, "
     "degC/K/degF, percent/ppm/psu/radian/degree, dimensionless aliases, CF/UDUNITS spellings); sweep sessions cover "
     "every ordered pair of names in random order, focus sessions hammer 3-6 names (repeated and reversed queries), "
-    "cache clears (API or dict.clear()) at random points; non-trivial = a session that repeats a pair after it was "
+    "cache clears (API or dict.clear()) at random points; half of the prepare/link ops run on UniformGrid((3,3)) "
+    "under Mask.NONE / Mask.FLEX / a fixed mask array with plain and masked-array payloads, every unmasked cell judged; non-trivial = a session that repeats a pair after it was "
     "cached, contains a clear, and contains compatible-not-equivalent, equivalent-not-identical and incompatible pairs; "
     "distinct by canonical case hash"
 )
@@ -159,6 +204,7 @@ TRUSTED = [
     "pi/180 (degree) is represented by a 35-digit rational approximation",
 ]
 ASSUMPTIONS = [
+    "masks do not change numbers: a gridded prepare/link op is compared cell by cell (unmasked cells) with the scalar model op",
     "catalogue avoids nearly-equal units: finam's equivalent_units uses np.isclose (rtol 1e-5), the model uses exact == 1",
     "converted numbers are compared with relative tolerance 1e-12 (IEEE rounding not modelled); relabelled numbers exactly",
     "delta_* units are excluded (pint refuses delta <-> offset-unit conversion although the dimension is equal)",
@@ -254,12 +300,13 @@ def _mk_op(rng, kind, i, j, third=None):
         return [kind, i, j]
     if kind == "to_units":
         return ["to_units", i, j, rng.random() < 0.6, x]
+    lay = 0 if rng.random() < 0.5 else rng.choice([1, 2, 3, 4, 5, 5, 5])
     if kind == "prepare":
-        return ["prepare", i, j, x]
+        return ["prepare", i, j, x, lay]
     if kind == "link":
         r = rng.random()
         k = None if r < 0.15 else (third if third is not None else rng.randrange(NCAT))
-        return ["link", k, i, j, x]
+        return ["link", k, i, j, x, lay]
     raise ValueError(kind)
 
 
@@ -314,6 +361,13 @@ def _i(n):
 
 
 CORPUS = [
+    # seeded/C17_b: foreign compatible units published as a quantity with a plain magnitude on an output whose
+    # Info has a FIXED mask must still be converted (1.5 km on an 'm' output is 1500 m), in every layout
+    {"ops": [["link", _i("km"), _i("m"), _i("m"), 1.5, 5], ["prepare", _i("km"), _i("m"), 1.5, 5],
+             ["prepare", _i("%"), _i("1"), 1.5, 5], ["prepare", _i("degC"), _i("K"), 1.5, 5],
+             ["link", _i("mm/d"), _i("m/s"), _i("km/h"), 86400.0, 5], ["link", _i("m"), _i("s"), _i("s"), 1.5, 5],
+             ["link", None, _i("m"), _i("km"), 1.5, 5], ["prepare", _i("Hz"), _i("1/s"), 1.5, 5]]
+            + [[o, _i("km"), _i("m")] + r + [lay] for lay in (1, 2, 3, 4) for o, r in (("prepare", [1.5]), ("link", [_i("mm"), 2.5]))]},
     # the pairs of tests/core/test_units.py / tests/data/test_tools.py
     {"ops": [["compat", _i("m"), _i("km")], ["equiv", _i("m"), _i("km")], ["compat", _i("m"), _i("s")],
              ["equiv", _i("mm"), _i("L/s")], ["equiv", _i("m/s"), _i("m s-1")], ["to_units", _i("m"), _i("km"), False, 1.0],
@@ -390,6 +444,27 @@ def _frs(fr):
     return [str(fr.numerator), str(fr.denominator)]
 
 
+def _layout(fm, np, vals, lay):
+    """(grid, mask of the Info, payload array) of a layout"""
+    if lay == 0:
+        return fm.NoGrid(), fm.Mask.FLEX, np.array(vals[0])
+    m = np.array(MASK).reshape(2, 2)
+    mask = {1: fm.Mask.NONE, 2: fm.Mask.FLEX, 3: fm.Mask.FLEX, 4: m, 5: m}[lay]
+    arr = np.array(vals, dtype=float).reshape(2, 2)
+    if lay in (3, 4):
+        arr = np.ma.array(arr, mask=m, shrink=False)
+    return fm.UniformGrid((3, 3)), mask, arr
+
+
+def _cellvals(np, mag, lay):
+    """exact cell values (Fractions, row-major) of a prepared magnitude (leading time axis of length 1)"""
+    v = np.ma.getdata(mag)
+    v = np.asarray(v, dtype=float).reshape(-1)
+    if v.size != (1 if lay == 0 else 4):
+        raise ValueError("unexpected data size")
+    return [F(float(t)) for t in v]
+
+
 def run_impl(case):
     import numpy as np
     from ..fin import fm, T, err_class
@@ -437,26 +512,36 @@ def run_impl(case):
                 else:
                     res.append(["val", _label(r.units), cv is not None, _frs(_fr(r.magnitude))])
             elif k == "prepare":
-                d = Qn(np.array(op[3]), fm.UNITS.Unit(NAMES[op[1]]))
-                info = fm.Info(time=t0, grid=fm.NoGrid(), units=NAMES[op[2]])
+                lay = _lay(op)
+                vals, judged = _cells(op[3], lay)
+                grid, mask, arr = _layout(fm, np, vals, lay)
+                d = Qn(arr, fm.UNITS.Unit(NAMES[op[1]]))
+                info = fm.Info(time=t0, grid=grid, units=NAMES[op[2]], mask=mask)
                 r, cv = tools.prepare(d, info, report_conversion=True)
                 if cv is not None and (_label(cv[0]), _label(cv[1])) != (CID[op[1]], CID[op[2]]):
                     res.append(["err", "bad-conversion-report"])
                 else:
-                    res.append(["val", _label(r.units), cv is not None, _frs(_fr(r.magnitude))])
+                    cells = _cellvals(np, r.magnitude, lay)
+                    per = [["val", _label(r.units), cv is not None, _frs(cells[i])] for i in judged]
+                    res.append(per[0] if lay == 0 else ["multi", per])
             elif k == "link":
                 kk, a, b, x = op[1], op[2], op[3], op[4]
+                lay = _lay(op)
+                vals, judged = _cells(x, lay)
+                grid, mask, arr = _layout(fm, np, vals, lay)
                 out = fm.Output(name="Out")
                 inp = fm.Input(name="In")
                 out >> inp
                 inp.ping()
-                out.push_info(fm.Info(time=t0, grid=fm.NoGrid(), units=NAMES[a]))
-                inp.exchange_info(fm.Info(time=t0, grid=fm.NoGrid(), units=NAMES[b]))
-                d = np.array(x) if kk is None else Qn(np.array(x), fm.UNITS.Unit(NAMES[kk]))
+                out.push_info(fm.Info(time=t0, grid=grid, units=NAMES[a], mask=mask))
+                inp.exchange_info(fm.Info(time=t0, grid=grid, units=NAMES[b]))
+                d = arr if kk is None else Qn(arr, fm.UNITS.Unit(NAMES[kk]))
                 out.push_data(d, t0)
                 st = out.data[-1][1]
                 got = inp.pull_data(t0)
-                res.append(["link", _label(st.units), _frs(_fr(st.magnitude)), _label(got.units), _frs(_fr(got.magnitude))])
+                cs, cg = _cellvals(np, st.magnitude, lay), _cellvals(np, got.magnitude, lay)
+                per = [["link", _label(st.units), _frs(cs[i]), _label(got.units), _frs(cg[i])] for i in judged]
+                res.append(per[0] if lay == 0 else ["multi", per])
             else:
                 raise ValueError(k)
         except Exception as e:  # noqa  (also a unit name pint cannot parse: an answer the model cannot give)
@@ -515,11 +600,13 @@ def _coq_res(r):
 
 
 def coq_case(case, obs):
-    return L(_coq_op(op) for op in case["ops"])
+    return L(_coq_op(sop) for op in case["ops"] for sop in expand(op))
 
 
 def coq_obs(case, obs):
-    return L(_coq_res(r) for r in obs.get("res", []))  # harness error: no answers -> mismatch
+    if "res" not in obs or len(obs["res"]) != len(case["ops"]):
+        return L([])  # harness error: no answers -> mismatch
+    return L(_coq_res(r) for op, got in zip(case["ops"], obs["res"]) for r in answers(op, got))
 
 
 # ----------------------------------------------------------------------------------------------
@@ -583,9 +670,13 @@ def monitor(case, obs):
     if len(ops) != len(res):
         return "driver returned a different number of answers"
     for n, (op, got) in enumerate(zip(ops, res)):
-        f = _cmp(_show(op), pure(op), got)
-        if f:
-            return f"op {n}: {f}"
+        sops, gots = expand(op), answers(op, got)
+        if len(sops) != len(gots):
+            return f"op {n}: {_show(op)}: {len(gots)} cell answers, expected {len(sops)}"
+        for sop, g in zip(sops, gots):
+            f = _cmp(_show(sop), pure(sop), g)
+            if f:
+                return f"op {n} [{LAYOUTS[_lay(op)]}]: {f}"
     return None
 
 
@@ -629,13 +720,15 @@ def distribution(cases, obss):
         if "res" not in o:
             continue
         for op, r in zip(c["ops"], o["res"]):
-            outcome[r[0] if r[0] != "err" else "err:" + r[1]] += 1
+            for r1 in answers(op, r):
+                outcome[r1[0] if r1[0] != "err" else "err:" + r1[1]] += 1
             for p in _pairs(op):
                 pairs.add(p)
     cls = Counter()
     for (i, j) in pairs:
         cls["identical" if CID[i] == CID[j] else "equivalent" if equiv(i, j) else "compatible" if compat(i, j) else "incompatible"] += 1
-    return {"op_kinds": dict(kinds), "answers": dict(outcome), "ordered_name_pairs_covered": len(pairs),
+    lays = Counter(LAYOUTS[_lay(op)] for c in cases for op in c["ops"] if op[0] in ("prepare", "link"))
+    return {"op_kinds": dict(kinds), "answers": dict(outcome), "prepare_link_layouts": dict(lays), "ordered_name_pairs_covered": len(pairs),
             "ordered_name_pairs_total": NCAT * NCAT, "pair_classes_covered": dict(cls),
             "session_length_bucket": dict(Counter(min(len(c["ops"]) // 50 * 50, 400) for c in cases))}
 
